@@ -298,6 +298,16 @@ class Repo:
             return ast.copy_location(ast.UnaryOp(op=ast.Not(), operand=e), e)
 
         class T(ast.NodeTransformer):
+            def visit_Subscript(self, n):
+                self.generic_visit(n)
+                # X[len(X) - 1] is X[-1] (the same element, the same IndexError on an empty X); X[a:len(X)] is X[a:]
+                sl = n.slice
+                if isinstance(sl, ast.BinOp) and isinstance(sl.op, ast.Sub) and isinstance(sl.right, ast.Constant) and sl.right.value == 1 and isinstance(sl.left, ast.Call) and isinstance(sl.left.func, ast.Name) and sl.left.func.id == "len" and len(sl.left.args) == 1 and norm(sl.left.args[0]) == norm(n.value) and all(isinstance(x, (ast.Name, ast.Attribute, ast.Load)) for x in ast.walk(n.value)):
+                    n.slice = ast.copy_location(ast.UnaryOp(op=ast.USub(), operand=ast.Constant(value=1)), sl)
+                elif isinstance(sl, ast.Slice) and sl.step is None and isinstance(sl.upper, ast.Call) and isinstance(sl.upper.func, ast.Name) and sl.upper.func.id == "len" and len(sl.upper.args) == 1 and norm(sl.upper.args[0]) == norm(n.value) and all(isinstance(x, (ast.Name, ast.Attribute, ast.Load)) for x in ast.walk(n.value)):
+                    sl.upper = None
+                return n
+
             def visit_UnaryOp(self, n):
                 self.generic_visit(n)
                 if isinstance(n.op, ast.Not) and (isinstance(n.operand, ast.BoolOp) or (isinstance(n.operand, ast.Compare) and len(n.operand.ops) == 1 and type(n.operand.ops[0]) in neg)):
@@ -314,7 +324,7 @@ class Repo:
             for f in mod.funcs.values():
                 if f.parent is not None:
                     continue  # nested functions are rewritten with their parent
-                if any(isinstance(x, ast.UnaryOp) and isinstance(x.op, ast.Not) or isinstance(x, ast.Compare) and isinstance(x.left, ast.Constant) for x in ast.walk(f.node)):
+                if any(isinstance(x, ast.UnaryOp) and isinstance(x.op, ast.Not) or isinstance(x, ast.Compare) and isinstance(x.left, ast.Constant) or (isinstance(x, ast.Call) and isinstance(x.func, ast.Name) and x.func.id == "len") for x in ast.walk(f.node)):
                     for i, st in enumerate(f.node.body):
                         f.node.body[i] = T().visit(st)
                     ast.fix_missing_locations(f.node)
@@ -2031,6 +2041,212 @@ def scalarise_counters(func):
         return out
 
     root.body = block(root.body)
+    ast.fix_missing_locations(root)
+    return Func(func.module, func.qualname, root, func.cls, func.parent)
+
+
+def merge_tail_accumulator(func):
+    """A Func in which a second string accumulator that is only ever appended to and read once, as the tail of `V + T`
+    (V another local string that is not written between T's initialisation and that read), is folded into V:
+        T = ""; ...; T += e; ...; return V + T        ->        ...; V += e; ...; return V"""
+    import copy
+
+    node = func.node
+    parents = parents_map(node)
+    inits, augs, loads, bad = {}, {}, {}, set()
+    for n in ast.walk(node):
+        if not isinstance(n, ast.Name):
+            continue
+        par = parents.get(n)
+        if isinstance(n.ctx, ast.Store):
+            if isinstance(par, ast.Assign) and len(par.targets) == 1 and par.targets[0] is n and isinstance(par.value, ast.Constant) and par.value.value == "":
+                inits.setdefault(n.id, []).append(par)
+            elif isinstance(par, ast.AugAssign) and par.target is n and isinstance(par.op, ast.Add):
+                augs.setdefault(n.id, []).append(par)
+            else:
+                bad.add(n.id)
+        else:
+            loads.setdefault(n.id, []).append(n)
+    todo = []
+    for t, ini in inits.items():
+        if t in bad or t in func.params or len(ini) != 1 or not augs.get(t) or len(loads.get(t, [])) != 1:
+            continue
+        ld = loads[t][0]
+        par = parents.get(ld)
+        if not (isinstance(par, ast.BinOp) and isinstance(par.op, ast.Add) and par.right is ld and isinstance(par.left, ast.Name)):
+            continue
+        v = par.left.id
+        if v == t:
+            continue
+        # V is not written between T's initialisation and the read; every append to T lies between them
+        v_stores = [x for x in ast.walk(node) if isinstance(x, ast.Name) and x.id == v and isinstance(x.ctx, (ast.Store, ast.Del))]
+        if any(func.before(ini[0], x) and func.before(x, ld) for x in v_stores):
+            continue
+        if not all(func.before(ini[0], a) and func.before(a, ld) for a in augs[t]):
+            continue
+        todo.append((t, v, ini[0], par))
+    if not todo:
+        return func
+    m1 = list(ast.walk(node))
+    root = copy.deepcopy(node)
+    m2 = list(ast.walk(root))
+    remap = {id(a): b for a, b in zip(m1, m2)}
+    drop = {id(remap[id(i)]) for _t, _v, i, _p in todo}
+    ren = {t: v for t, v, _i, _p in todo}
+    reads = {id(remap[id(p_)]): v for _t, v, _i, p_ in todo}
+
+    class T(ast.NodeTransformer):
+        def visit_BinOp(self, b):
+            if id(b) in reads:
+                return ast.copy_location(ast.Name(id=reads[id(b)], ctx=ast.Load()), b)
+            return self.generic_visit(b)
+
+        def visit_AugAssign(self, a):
+            self.generic_visit(a)
+            if isinstance(a.target, ast.Name) and a.target.id in ren:
+                a.target = ast.Name(id=ren[a.target.id], ctx=ast.Store())
+            return a
+
+        def visit_Assign(self, a):
+            if id(a) in drop:
+                return ast.copy_location(ast.Pass(), a)
+            return self.generic_visit(a)
+
+    root = T().visit(root)
+    ast.fix_missing_locations(root)
+    return Func(func.module, func.qualname, root, func.cls, func.parent)
+
+
+def string_builders(func):
+    """A Func in which a local list that only collects pieces of one string — bound to `[]`, touched only by
+    `L.append(E)` statements, and read exactly once as `"".join(L)` — is the string it builds:
+        L = []; ...; L.append(E); ...; s = "".join(L)      ->      L = ""; ...; L += E; ...; s = L"""
+    import copy
+
+    node = func.node
+    inits, appends, joins, other = {}, {}, {}, set()
+    parents = parents_map(node)
+    for n in ast.walk(node):
+        if not isinstance(n, ast.Name):
+            continue
+        par = parents.get(n)
+        if isinstance(n.ctx, ast.Store):
+            if isinstance(par, ast.Assign) and len(par.targets) == 1 and par.targets[0] is n and ((isinstance(par.value, ast.List) and not par.value.elts) or (isinstance(par.value, ast.Call) and isinstance(par.value.func, ast.Name) and par.value.func.id == "list" and not par.value.args)):
+                inits.setdefault(n.id, []).append(par)
+            else:
+                other.add(n.id)
+            continue
+        gp = parents.get(par) if par is not None else None
+        if isinstance(par, ast.Attribute) and par.attr == "append" and par.value is n and isinstance(gp, ast.Call) and gp.func is par and len(gp.args) == 1 and not gp.keywords and isinstance(parents.get(gp), ast.Expr):
+            appends.setdefault(n.id, []).append(gp)
+        elif isinstance(par, ast.Call) and isinstance(par.func, ast.Attribute) and par.func.attr == "join" and isinstance(par.func.value, ast.Constant) and par.func.value.value == "" and par.args == [n] and not par.keywords:
+            joins.setdefault(n.id, []).append(par)
+        else:
+            other.add(n.id)
+    cands = {nm for nm in inits if nm not in other and nm not in func.params and len(joins.get(nm, [])) == 1 and appends.get(nm)}
+    # the join comes after every append in the text (the list is complete when it is read) and is not inside a loop that appends
+    ok = set()
+    for nm in cands:
+        j = joins[nm][0]
+        if all(func.before(a, j) for a in appends[nm]) and all(func.before(i_, a) for i_ in inits[nm] for a in appends[nm]):
+            ok.add(nm)
+    if not ok:
+        return func
+    ids_init = {id(st) for nm in ok for st in inits[nm]}
+    ids_app = {id(c): nm for nm in ok for c in appends[nm]}
+    ids_join = {id(c): nm for nm in ok for c in joins[nm]}
+
+    class T(ast.NodeTransformer):
+        def visit_Assign(self, st):
+            if id(st) in ids_init:
+                return ast.copy_location(ast.Assign(targets=st.targets, value=ast.Constant(value="")), st)
+            return self.generic_visit(st)
+
+        def visit_Expr(self, st):
+            if isinstance(st.value, ast.Call) and id(st.value) in ids_app:
+                nm = ids_app[id(st.value)]
+                return ast.copy_location(ast.AugAssign(target=ast.Name(id=nm, ctx=ast.Store()), op=ast.Add(), value=self.visit(st.value.args[0])), st)
+            return self.generic_visit(st)
+
+        def visit_Call(self, c):
+            if id(c) in ids_join:
+                return ast.copy_location(ast.Name(id=ids_join[id(c)], ctx=ast.Load()), c)
+            return self.generic_visit(c)
+
+    # transform a copy while keeping identity: work on the original ids, so transform in place on a deep copy keyed by position
+    root = copy.deepcopy(node)
+    # re-derive ids on the copy by parallel walk
+    m1 = list(ast.walk(node))
+    m2 = list(ast.walk(root))
+    remap = {id(a): b for a, b in zip(m1, m2)}
+    ids_init = {id(remap[i]) for i in ids_init}
+    ids_app = {id(remap[i]): nm for i, nm in ids_app.items()}
+    ids_join = {id(remap[i]): nm for i, nm in ids_join.items()}
+    root = T().visit(root)
+    ast.fix_missing_locations(root)
+    return Func(func.module, func.qualname, root, func.cls, func.parent)
+
+
+def while_next_loops(func):
+    """A Func in which the hand-written iteration protocol
+        while True:
+            try: x = next(IT)
+            except StopIteration: break
+            BODY
+    is written `for x in IT: BODY` (IT a name; exact, including `continue` / `break` in BODY), and a name bound once to an
+    iterator-returning call that is only used as the iterable of one `for` is read in place (`it = g.read_file(); for x
+    in it:` -> `for x in g.read_file():`)."""
+    import copy
+
+    changed = [False]
+
+    def block(stmts):
+        out = []
+        for st in stmts:
+            for fld in ("body", "orelse", "finalbody"):
+                lst = getattr(st, fld, None)
+                if isinstance(lst, list) and lst and isinstance(lst[0], ast.stmt) and not isinstance(st, (ast.FunctionDef, ast.AsyncFunctionDef, ast.ClassDef)):
+                    setattr(st, fld, block(lst))
+            if isinstance(st, ast.Try):
+                for h in st.handlers:
+                    h.body = block(h.body)
+            if isinstance(st, ast.While) and isinstance(st.test, ast.Constant) and st.test.value is True and not st.orelse and st.body and isinstance(st.body[0], ast.Try):
+                t = st.body[0]
+                if len(t.body) == 1 and isinstance(t.body[0], ast.Assign) and len(t.body[0].targets) == 1 and isinstance(t.body[0].value, ast.Call) and isinstance(t.body[0].value.func, ast.Name) and t.body[0].value.func.id == "next" and len(t.body[0].value.args) == 1 and isinstance(t.body[0].value.args[0], ast.Name) and len(t.handlers) == 1 and norm(t.handlers[0].type) == "StopIteration" and len(t.handlers[0].body) == 1 and isinstance(t.handlers[0].body[0], ast.Break) and not t.orelse and not t.finalbody:
+                    it = t.body[0].value.args[0].id
+                    rest = st.body[1:]
+                    if not any(isinstance(x, ast.Name) and x.id == it for r in rest for x in ast.walk(r)):
+                        out.append(ast.copy_location(ast.For(target=t.body[0].targets[0], iter=ast.Name(id=it, ctx=ast.Load()), body=rest or [ast.Pass()], orelse=[]), st))
+                        changed[0] = True
+                        continue
+            out.append(st)
+        return out
+
+    root = copy.deepcopy(func.node)
+    root.body = block(root.body)
+    # it = <call>; for x in it: ...   (it read nowhere else)
+    uses, stores = {}, {}
+    for n in ast.walk(root):
+        if isinstance(n, ast.Name):
+            d = stores if isinstance(n.ctx, (ast.Store, ast.Del)) else uses
+            d[n.id] = d.get(n.id, 0) + 1
+    for lp in [n for n in ast.walk(root) if isinstance(n, ast.For) and isinstance(n.iter, ast.Name)]:
+        nm = lp.iter.id
+        if stores.get(nm) == 1 and uses.get(nm) == 1:
+            for parent in ast.walk(root):
+                for fld in ("body", "orelse", "finalbody"):
+                    lst = getattr(parent, fld, None)
+                    if isinstance(lst, list):
+                        for i, st in enumerate(lst):
+                            if isinstance(st, ast.Assign) and len(st.targets) == 1 and isinstance(st.targets[0], ast.Name) and st.targets[0].id == nm and isinstance(st.value, ast.Call) and lp in lst[i + 1 :]:
+                                between = lst[i + 1 : lst.index(lp)]
+                                if all(isinstance(b, (ast.Assign, ast.Expr)) and not any(isinstance(x, ast.Call) for x in ast.walk(b)) for b in between):
+                                    lp.iter = st.value
+                                    del lst[i]
+                                    changed[0] = True
+                                break
+    if not changed[0]:
+        return func
     ast.fix_missing_locations(root)
     return Func(func.module, func.qualname, root, func.cls, func.parent)
 
